@@ -33,7 +33,7 @@ static StringView key_of(int k) {
 }
 
 // ------------------------------------------------------------------ model
-enum { MNull = 0, MInt = 1, MStr = 2, MArr = 3, MObj = 4, MTrue = 5 };
+enum { MNull = 0, MInt = 1, MStr = 2, MArr = 3, MObj = 4, MTrue = 5, MDbl = 6 };
 struct MVal { uint8_t kind; uint8_t skey; uint8_t n; uint8_t key[40]; int16_t kid[40]; uint64_t num; };
 static MVal g_pool[400]; static int g_npool;
 static int mnew(int kind) { MVal& v = g_pool[g_npool]; v.kind = kind; v.n = 0; v.num = 0; v.skey = 0; return g_npool++; }
@@ -45,7 +45,7 @@ static int mcopy(int i) {
 static bool mequal(int a, int b) {   // JSON value equality, objects as key->value maps (distinct keys assumed)
   MVal& x = g_pool[a]; MVal& y = g_pool[b];
   if (x.kind != y.kind) return false;
-  if (x.kind == MInt) return x.num == y.num;
+  if (x.kind == MInt || x.kind == MDbl) return x.num == y.num;      // doubles: bit-exact, so -0.0 != 0.0; kinds differ for 1 vs 1.0
   if (x.kind == MStr) return x.skey == y.skey;
   if (x.kind == MArr) { if (x.n != y.n) return false; for (int i = 0; i < x.n; i++) if (!mequal(x.kid[i], y.kid[i])) return false; return true; }
   if (x.kind == MObj) {
@@ -72,6 +72,12 @@ static void compare(const Node& n, int mi, bool hasmap_known_distinct) {
       if (!n.IsInt64() && !n.IsUint64()) verif_fail("C12: node is not an integer where the model has one");
       verif_check((uint64_t)n.GetInt64() == m.num, "C12: integer payload differs from the model");
       return;
+    case MDbl: {
+      if (!n.IsDouble() || n.IsInt64() || n.IsUint64()) verif_fail("C12: node is not a double where the model has one");
+      double d = n.GetDouble(); uint64_t b; memcpy(&b, &d, 8);
+      if (b != m.num) verif_fail("C12: double bits differ from the model");
+      return;
+    }
     case MStr: {
       if (!n.IsString()) verif_fail("C12: node is not a string where the model has one");
       StringView e = key_of(m.skey), g = n.GetStringView();
@@ -136,6 +142,11 @@ static Node make_value(int vk, uint64_t p, int k, Alloc& a) {
     case 2: { v.SetArray(); Node e; e.SetInt64(7); v.PushBack(std::move(e), a); g_last_model = mnew(MArr); int c = mnew(MInt); g_pool[c].num = 7; g_pool[g_last_model].kid[0] = c; g_pool[g_last_model].n = 1; break; }
     case 3: v.SetNull(); g_last_model = mnew(MNull); break;
     case 4: { v.SetObject(); Node e; e.SetInt64((int64_t)p); v.AddMember(key_of(0), std::move(e), a, true); g_last_model = mnew(MObj); int c = mnew(MInt); g_pool[c].num = p; g_pool[g_last_model].kid[0] = c; g_pool[g_last_model].key[0] = 0; g_pool[g_last_model].n = 1; break; }
+    case 6: {   // a double from a small set that separates bit-exact from numeric equality and double from integer kinds
+      static const uint64_t kD[] = {0x0000000000000000ull /*0.0*/, 0x8000000000000000ull /*-0.0*/, 0x3ff0000000000000ull /*1.0*/, 0x4004000000000000ull /*2.5*/};
+      uint64_t bits = kD[p & 3]; double d; memcpy(&d, &bits, 8);
+      v.SetDouble(d); g_last_model = mnew(MDbl); g_pool[g_last_model].num = bits; break;
+    }
     default: v.SetString(key_of(k)); g_last_model = mnew(MStr); g_pool[g_last_model].skey = k; break;      // const (unowned) string
   }
   return v;
@@ -197,8 +208,8 @@ extern "C" int h_dom(void) {
         case 3: { uint64_t p = payload(); T.SetInt64((int64_t)p); mt = mnew(MInt); g_pool[mt].num = p; break; }
         case 4: { int k = (int)pick(0, 3, "key"); int cp = (int)pick(0, 1, "copy"); if (cp) T.SetString(key_of(k), a); else T.SetString(key_of(k)); mt = mnew(MStr); g_pool[mt].skey = k; break; }
         case 5: if (isobj && m->n < 38) {
-            int k = (int)pick(0, 3, "key"); int vk = (int)pick(0, 5, "vkind"); int ck = (int)pick(0, 1, "copykey");
-            uint64_t p = payload();
+            int k = (int)pick(0, 3, "key"); int vk = (int)pick(0, 6, "vkind"); int ck = (int)pick(0, 1, "copykey");
+            uint64_t p = vk == 6 ? pick(0, 3, "dsel") : (vk == 0 && !(g_mode & 8) ? (pick(0, 1, "small") ? pick(0, 1, "ival") : payload()) : payload());
             Node v = make_value(vk, p, (k + 1) & 3, a);
             auto it = T.AddMember(key_of(k), std::move(v), a, ck != 0);
             if (it != T.MemberBegin() + m->n) verif_fail("C12: AddMember does not return the new last member");
@@ -226,7 +237,7 @@ extern "C" int h_dom(void) {
         case 9: if (isobj) { if (!T.CreateMap(a)) verif_fail("C12: CreateMap failed"); } break;
         case 10: if (isobj) T.DestroyMap(); break;
         case 11: if (isarr && m->n < 38) {
-            int vk = (int)pick(0, 5, "vkind"); uint64_t p = payload();
+            int vk = (int)pick(0, 6, "vkind"); uint64_t p = vk == 6 ? pick(0, 3, "dsel") : (vk == 0 && !(g_mode & 8) ? (pick(0, 1, "small") ? pick(0, 1, "ival") : payload()) : payload());
             Node v = make_value(vk, p, 1, a);
             T.PushBack(std::move(v), a);
             m->kid[m->n] = g_last_model; m->n++;
